@@ -125,23 +125,11 @@ func c18(c *ctx) {
 		maxVal = o.Val().ExactString()
 	}
 	r.Anchor(maxVal != "", "p2p.maxMessageSize")
-	overLimit := func(v ssa.Value) (string, bool) {
-		if b, ok := v.(*ssa.BinOp); ok && (b.Op == token.LSS || b.Op == token.GTR || b.Op == token.GEQ || b.Op == token.LEQ) {
-			px, py := c.p.path(b.X), c.p.path(b.Y)
-			sum := "(len($0.msgAssembler) + len($2.Bytes))"
-			switch {
-			case b.Op == token.LSS && (px == maxVal) && py == sum:
-				return "overLimit", false
-			case b.Op == token.GTR && px == sum && (py == maxVal):
-				return "overLimit", false
-			case b.Op == token.GEQ && (px == maxVal) && py == sum:
-				return "overLimit", true
-			case b.Op == token.LEQ && px == sum && (py == maxVal):
-				return "overLimit", true
-			}
-		}
-		return "", false
-	}
+	overLimit := ordAtom("overLimit", token.LSS,
+		func(x ssa.Value) bool { return c.p.path(x) == maxVal },
+		func(y ssa.Value) bool {
+			return c.p.path(y) == "(len($0.msgAssembler) + len($2.Bytes))" || c.p.path(y) == "(len($2.Bytes) + len($0.msgAssembler))"
+		})
 	c.mpt(mptSpec{rule: "R3", fn: handlePacket, events: evSet{}, atom: overLimit,
 		target: func(in ssa.Instruction, st *PState, e *pathEngine) string {
 			if cc := callCommon(in); cc != nil {
@@ -197,8 +185,10 @@ func c18(c *ctx) {
 	// NewStreams: a loop over range Topic_INVALID plus the explicit heartbeat stream
 	loopAll, hbStream := false, false
 	instrs(newStreams, func(in ssa.Instruction) {
-		if b, ok := in.(*ssa.BinOp); ok && b.Op == token.LSS && invalid != "" && c.p.path(b.Y) == invalid {
-			loopAll = true
+		if b, ok := in.(*ssa.BinOp); ok && isOrdering(b.Op) && invalid != "" {
+			if m, _ := ordMatchV(b, token.LSS, func(ssa.Value) bool { return true }, func(y ssa.Value) bool { return c.p.path(y) == invalid }); m {
+				loopAll = true
+			}
 		}
 		if mu, ok := in.(*ssa.MapUpdate); ok && c.p.path(mu.Key) == hbVal {
 			hbStream = true
